@@ -147,6 +147,7 @@ func runSnapshotVsBusyApply(o *hx.Out) {
 		return
 	}
 	h.doStreamBreak(1)
+	h.racing = true
 	snapDone := make(chan struct{})
 	go func() {
 		h.doSnapshotQuiet(9, 2, 3)
